@@ -209,6 +209,12 @@ SPECIAL_TEXTS = [
     "[.!=~!%s!]" % _ALL_DELIMS, "(a[.=~!%s!])+(b)" % _ALL_DELIMS,
     "[.=~/%s/]" % _ALL_DELIMS.replace("/", ""),
     "a" * 5000, "a." * 2000, "[0]" * 1000, "\\" * 999,
+    # regular expressions no compiler takes: for their size, their nesting,
+    # their syntax (parsing a path must not depend on any of these)
+    "a[b=~/x{4294967296}/]", "/a[.=~|y{99999999999999999999}|]",
+    "[.=~/%s%s/]" % ("(" * 3000, ")" * 3000), "[k!=~/(?P<n>a)(?P<n>b)/]",
+    "[.=~/(/]", "[.=~/[z-a]/]", "[.=~/a**/]", "[.=~/(?u)(?a)x/]",
+    "(a[.=~/x{4294967296}/])-(b)", "a[b=~/\\/]",
 ]
 KEYWORDS = ["has_child", "max", "min", "name", "parent", "unique", "distinct"]
 BLANKS = ["", " ", "\t", "\n", "\r", "\x0b", "\x0c", "\u00a0", "\u2003",
